@@ -204,7 +204,7 @@ def _sel_viol(res, prop):
         out.append({"sig": {"clause": mine[0]},
                     "what": f'{mine} on DAG n={it["n"]} deps={it["deps"]} kind={it["kind"]} const={it["const"]} row={row}',
                     "replay": {"engine": "E3", "property": prop, "kind": "sel", "clauses": mine,
-                               "dag": {k: it[k] for k in ("n", "deps", "kind", "const", "tags", "setuparg", "idxret", "calltag", "actdep") if k in it}, "row": row}})
+                               "dag": {k: it[k] for k in ("n", "deps", "kind", "const", "tags", "setuparg", "idxret", "calltag", "actdep", "plaintag") if k in it}, "row": row}})
     return out
 
 
